@@ -466,6 +466,65 @@ def run_witness(binpath, w):
             return {"cmd": "%s / run <%d programs, %d rewritten variants>" % ((w.get("command") or ["reftest-wrap-in-dbg"])[0], len(jobs), n_wrapped), "exit": 0, "stdout": "", "stderr": "",
                     "reproduced": bool(bad_items) or n_wrapped < w.get("min_inputs", 1), "why": ("; ".join(bad_items[:4]) if bad_items else "only %d wrapped variants" % n_wrapped)[:1800],
                     "n_inputs": n_wrapped, "failing_inputs": failing[:6]}
+        elif kind == "test-isolation":
+            # C26 bounded stand-in: for each project (files + the file arguments of `garden test`): the verdict of every
+            # test is the same in the full run, in the run with the files in reverse order, and alone via `-n NAME`;
+            # every run's exit status is non-zero exactly when it prints a `Failed:` line
+            import re as _re
+            bad_items, failing, n_runs = [], [], 0
+            for pi, it in enumerate(w["input"]):
+                d = os.path.join(tmpdir, "t%d" % pi)
+                os.makedirs(d, exist_ok=True)
+                for name, text in it["files"].items():
+                    with open(os.path.join(d, name), "w", encoding="utf-8") as fh:
+                        fh.write(text)
+                names = []
+                for a in it["args"]:
+                    names += _re.findall(r"^test\s+(\w+)", it["files"][a], flags=_re.M)
+
+                def run_t(extra, order, d=d):
+                    try:
+                        p = subprocess.run([binpath, "test"] + [os.path.join(d, a) for a in order] + extra, capture_output=True, text=True, timeout=120, cwd=d, stdin=subprocess.DEVNULL)
+                    except subprocess.TimeoutExpired:
+                        return None
+                    o = p.stdout + p.stderr
+                    failed = set(_re.findall(r"^Failed: (\w+) ", o, flags=_re.M))
+                    return p.returncode, failed, o
+                full = run_t([], it["args"])
+                n_runs += 1
+                what = it.get("what", "project %d" % pi)
+                if full is None or full[0] == 101 or "panicked at" in full[2]:
+                    bad_items.append("%s: the full run crashed or timed out" % what)
+                    failing.append(it)
+                    continue
+                if (full[0] != 0) != bool(full[1]):
+                    bad_items.append("%s: exit status %s with failed tests %s" % (what, full[0], sorted(full[1])))
+                    failing.append(it)
+                m_ = _re.search(r"Ran (\d+) tests?:", full[2])
+                if not m_ or int(m_.group(1)) != len(names):
+                    bad_items.append("%s: the summary does not count the %d tests: %r" % (what, len(names), full[2][-160:]))
+                    failing.append(it)
+                rev = run_t([], list(reversed(it["args"])))
+                n_runs += 1
+                if rev is None or rev[1] != full[1] or (rev[0] != 0) != (full[0] != 0):
+                    bad_items.append("%s: with the files in reverse order the failed tests are %s, not %s" % (what, None if rev is None else sorted(rev[1]), sorted(full[1])))
+                    failing.append(it)
+                for nm in names:
+                    alone = run_t(["-n", nm], it["args"])
+                    n_runs += 1
+                    if alone is None or alone[0] == 101:
+                        bad_items.append("%s: `-n %s` crashed or timed out" % (what, nm))
+                        failing.append(it)
+                        continue
+                    others = {x for x in alone[1] if x != nm}
+                    if (nm in alone[1]) != (nm in full[1]):
+                        bad_items.append("%s: test %s %s alone (-n) but %s in the full run: %r" % (what, nm, "fails" if nm in alone[1] else "passes", "fails" if nm in full[1] else "passes", alone[2][-200:]))
+                        failing.append(it)
+                    elif (alone[0] != 0) != bool(alone[1]):
+                        bad_items.append("%s: `-n %s` exits with %s with failed tests %s" % (what, nm, alone[0], sorted(alone[1])))
+                        failing.append(it)
+            return {"cmd": "test <%d projects, %d runs>" % (len(w["input"]), n_runs), "exit": 0, "stdout": "", "stderr": "",
+                    "reproduced": bool(bad_items), "why": "; ".join(bad_items[:4])[:1600], "n_inputs": n_runs, "failing_inputs": failing[:3]}
         elif kind == "project-corpus":
             # several small multi-file projects; for each: `garden <cmd> <main>` in its own directory must not crash or
             # hang, and its output must (not) contain the listed texts
